@@ -446,3 +446,12 @@ Print Assumptions C01_cast_code_is_model.
 Theorem C01_escape_code_is_model : forall st x, fn_escapeChars st x = Ret (escape_chars x).
 Proof. exact escape_code_is_model. Qed.
 Print Assumptions C01_escape_code_is_model.
+
+(* ---- tie to the CURRENT source of NewMapXml (xml.go): the document and the single optional cast flag (false when
+   absent or when several are given) are handed to the parser entry xmlToMap (GenProofs/PureG13.v) *)
+From Mxj Require Import GenProofs.PureG5 GenProofs.PureG13.
+
+Theorem C01_new_map_xml_code : forall (xmlToMap : str -> bool -> res entries) st doc cast,
+  fn_NewMapXml xmlToMap st doc cast = of_res (xmlToMap doc (opt_flag cast)).
+Proof. exact new_map_xml_code. Qed.
+Print Assumptions C01_new_map_xml_code.
